@@ -714,6 +714,8 @@ value_t& value_t::operator/=(const value_t& val)
   case INTEGER:
     switch (val.type()) {
     case INTEGER:
+      if (val.as_long() == 0)
+        throw_(value_error, _("Divide by zero"));
       as_long_lval() /= val.as_long();
       return *this;
     case AMOUNT:
